@@ -116,7 +116,7 @@ func GenConfig(seed uint64, opt core.Options) *Config {
 	pick("EPOCHS_PER_SLASHINGS_VECTOR", 4, 8, 64)
 	pick("EPOCHS_PER_ETH1_VOTING_PERIOD", 1, 2, 4)
 	pick("EPOCHS_PER_SYNC_COMMITTEE_PERIOD", 1, 2, 3, 8)
-	pick("SYNC_COMMITTEE_SIZE", 4, 8, 16, 32)
+	pick("SYNC_COMMITTEE_SIZE", 4, 8, 12, 16, 32)
 	pick("MIN_PER_EPOCH_CHURN_LIMIT", 1, 2, 4)
 	pick("CHURN_LIMIT_QUOTIENT", 8, 32, 65536)
 	pick("MAX_PER_EPOCH_ACTIVATION_CHURN_LIMIT", 1, 2, 8)
